@@ -16,11 +16,19 @@
 
    The full-strength statement "forall cmd cfg fs, run cmd cfg fs <> Panic" is FALSE of the
    faithful pinned model: C14_pinned_panics_refuted_* below are the witnesses (findings F5, F8,
-   F19); C14_cycle_diverges_pinned is the loader's (F12).  It is TRUE of the repaired model:
-   C14_no_panic_repaired, C14_load_terminates. *)
-From Coq Require Import ZArith List Bool.
+   F9, F19); C14_cycle_diverges_pinned is the loader's (F12).  It is TRUE of the repaired model:
+   C14_no_panic_repaired, C14_no_panic_repaired_more, C14_load_terminates.
+
+   The seven journal-processing commands: check, balance, print (sections 2-4), transcode,
+   portfolio weights, portfolio returns (section 5: the same three guards, the same shape of
+   statements), format and infer (section 6: the syntax-level commands end in one of their proper
+   results, never in CmdPanic / CmdOutOfFuel / InferBad - C07_fuel, C08_cmd_total and C15_total at
+   the command level). *)
+From Coq Require Import ZArith QArith List Bool.
 From Knut Require Import Model.Str Model.Dec Model.Date Model.Account Model.Ledger Model.Journal
      Model.Pipeline Model.Table Model.Cli Model.Loader Model.CliSafe Spec.FailSpec Proofs.LoaderProofs Proofs.NoPanic.
+From Knut Require Import Model.CliTranscode Model.Weights Model.CliPortfolio Model.CliSafeMore Spec.FailSpecMore
+     Proofs.NoPanicMore.
 Import ListNotations.
 Open Scope Z_scope.
 
@@ -220,6 +228,178 @@ Theorem C14_error_empty_stdout :
 Proof. exact error_empty_stdout_all. Qed.
 Print Assumptions C14_error_empty_stdout.
 
+(* ---------------------------------------------------------------- (5) transcode, portfolio weights, portfolio returns *)
+
+(* Model/CliTranscode.v and Model/CliPortfolio.v are built on the pinned Cli.load, the pinned
+   Multiperiod.Partition and a Query whose mapping can hit slice bounds; so the statements have
+   the shape of (2)-(4): no Panic under the explicit guards, an iff for every panicking function
+   and command, a witness per guard, and the repaired commands (Model/CliSafeMore.v = the code
+   after f4c5740 c04a731 78c5401 864fd70) panic-free on every input. *)
+
+(* transcode after fix 864fd70 (a missing -v is an error): for every journal and every optional
+   valuation; the only guard is the one of check and print *)
+Theorem C14_no_panic_transcode :
+  forall lenient v ds, accruals_ok ds = true -> forall m, transcode_cmd lenient v ds <> CPanic m.
+Proof. exact transcode_cmd_np. Qed.
+Print Assumptions C14_no_panic_transcode.
+
+(* [pf_guards] (Spec/FailSpecMore.v): the three conjuncts of [guards] on a pf_cfg *)
+Theorem C14_no_panic_weights :
+  forall cfg ds, pf_guards cfg ds = true -> forall m, weights_csv_cmd cfg ds <> CPanic m.
+Proof. exact weights_csv_cmd_np. Qed.
+Print Assumptions C14_no_panic_weights.
+
+(* returns has no -m: [returns_guards] = accruals_ok && pf_window_start_ok; both wirings *)
+Theorem C14_no_panic_returns :
+  forall fx cfg ds, returns_guards cfg ds = true -> forall m, returns_cmd fx cfg ds <> CPanic m.
+Proof. exact returns_cmd_np. Qed.
+Print Assumptions C14_no_panic_returns.
+
+(* exactly when they panic, command by command and function by function *)
+Theorem C14_transcode_panics_iff :
+  forall lenient v ds,
+  (exists m, transcode_cmd lenient v ds = CPanic m) <->
+  ((exists c, valuation_flag v = COk (Some c)) /\ (exists m, parse_directives ds = MPanic m)).
+Proof. exact transcode_cmd_panics_iff. Qed.
+Print Assumptions C14_transcode_panics_iff.
+
+Theorem C14_returns_panics_iff :
+  forall fx cfg ds,
+  (exists m, returns_cmd fx cfg ds = CPanic m) <->
+  ((exists u, check_valuation cfg = COk u) /\
+   ((exists m, parse_directives ds = MPanic m) \/ pf_window_start_ok cfg ds = false)).
+Proof. exact returns_cmd_panics_iff. Qed.
+Print Assumptions C14_returns_panics_iff.
+
+Theorem C14_pf_partition_panics_iff :
+  forall cfg b, (exists m, pf_partition cfg b = CPanic m) <-> Z.max (pc_from cfg) (b_min b) = 0.
+Proof. exact pf_partition_panics_iff. Qed.
+Print Assumptions C14_pf_partition_panics_iff.
+
+(* weights.Query.Execute on one class path: None is the slice-bounds panic of
+   append(ss[:level], ss[len(ss)-suffix:]...) *)
+Theorem C14_map_path_panics_iff :
+  forall m ss, map_path m ss = None <->
+  exists level suffix, mapping_level m (join [colon] ss) = Some (level, suffix) /\
+    level < Z.of_nat (length ss) - suffix /\ (level < 0 \/ suffix < 0).
+Proof. exact map_path_panics_iff. Qed.
+Print Assumptions C14_map_path_panics_iff.
+
+Theorem C14_query_panics_iff :
+  forall u m ends l, query_entries u m ends l = WPanic <->
+  exists d v0 v1 c q, In (d, (v0, v1)) l /\ existsb (Z.eqb d) ends = true /\ In (c, q) v1 /\
+                      map_path m (locate u c) = None.
+Proof. exact query_entries_panics_iff. Qed.
+Print Assumptions C14_query_panics_iff.
+
+(* each guard is necessary, for these commands too *)
+Theorem C14_pinned_panics_refuted_weights_mapping :   (* F5 for weights: -m -1 *)
+  exists cfg ds, mapping_nonneg (pc_mapping cfg) = false /\ accruals_ok ds = true /\ pf_window_start_ok cfg ds = true /\
+                 weights_csv_cmd cfg ds = CPanic k_bounds.
+Proof. exists (w_pf w_neg_level_all), (w_journal w_day None). exact witness_weights_neg_level. Qed.
+Print Assumptions C14_pinned_panics_refuted_weights_mapping.
+
+Theorem C14_pinned_panics_refuted_weights_suffix :    (* -m 1:-2 *)
+  exists cfg ds, mapping_nonneg (pc_mapping cfg) = false /\ weights_csv_cmd cfg ds = CPanic k_bounds.
+Proof. exists (w_pf w_neg_suffix_all), (w_journal w_day None). exact witness_weights_neg_suffix. Qed.
+Print Assumptions C14_pinned_panics_refuted_weights_suffix.
+
+Theorem C14_pinned_panics_refuted_accrual_more :      (* F8 through weights, returns, transcode *)
+  exists ds, accruals_ok ds = false /\ mapping_nonneg [] = true /\
+             weights_csv_cmd (w_pf []) ds = CPanic e_divzero /\
+             returns_cmd repaired (w_pf []) ds = CPanic e_divzero /\
+             transcode_cmd true (Some w_chf) ds = CPanic e_divzero.
+Proof. exists (w_journal w_day (Some w_inverted)). exact witness_pf_inverted_accrual. Qed.
+Print Assumptions C14_pinned_panics_refuted_accrual_more.
+
+Theorem C14_pinned_panics_refuted_zero_day_more :     (* F19b through weights and returns *)
+  exists cfg ds, pf_window_start_ok cfg ds = false /\ accruals_ok ds = true /\
+                 weights_csv_cmd cfg ds = CPanic k_zerotime /\ returns_cmd repaired cfg ds = CPanic k_zerotime.
+Proof. exists (w_pf []), (w_journal 0 None). exact witness_pf_zero_day. Qed.
+Print Assumptions C14_pinned_panics_refuted_zero_day_more.
+
+(* F9: before 864fd70 transcode without -v ended in a nil dereference on every journal that
+   check accepts, and never succeeded *)
+Theorem C14_pinned_panics_refuted_transcode_noval :
+  exists ds, accruals_ok ds = true /\ check_cmd true ds = COk tt /\
+             transcode_cmd_pinned true None ds = CPanic k_nil_commodity /\
+             transcode_cmd true None ds = CErr k_valuation [].
+Proof. exists (w_journal w_day None). exact witness_transcode_noval. Qed.
+Print Assumptions C14_pinned_panics_refuted_transcode_noval.
+
+Theorem C14_transcode_pinned_noval_never_ok :
+  forall lenient ds,
+  (exists k d, transcode_cmd_pinned lenient None ds = CErr k d) \/ (exists m, transcode_cmd_pinned lenient None ds = CPanic m).
+Proof. exact transcode_cmd_pinned_noval. Qed.
+Print Assumptions C14_transcode_pinned_noval_never_ok.
+
+(* the repaired commands: no Panic is reachable, for every flag value, every directive list,
+   every file tree *)
+Theorem C14_no_panic_repaired_more :
+  forall lenient v fx cfg ds m,
+    transcode_cmd_safe lenient v ds <> CPanic m /\ weights_csv_cmd_safe cfg ds <> CPanic m /\
+    returns_cmd_safe fx cfg ds <> CPanic m.
+Proof. exact repaired_np_more. Qed.
+Print Assumptions C14_no_panic_repaired_more.
+
+Theorem C14_no_panic_repaired_more_fs :
+  forall lenient v cfg fs root,
+    transcode_fs lenient v fs root <> PredPANIC /\ weights_fs cfg fs root <> PredPANIC /\ returns_fs cfg fs root <> PredPANIC.
+Proof. exact commands_fs_np_more. Qed.
+Print Assumptions C14_no_panic_repaired_more_fs.
+
+(* ... and equal the commands above wherever those do not panic *)
+Theorem C14_repaired_agrees_more :
+  forall lenient v fx cfg ds,
+    (accruals_ok ds = true -> transcode_cmd_safe lenient v ds = transcode_cmd lenient v ds) /\
+    (pf_guards cfg ds = true -> weights_csv_cmd_safe cfg ds = weights_csv_cmd cfg ds) /\
+    (returns_guards cfg ds = true -> returns_cmd_safe fx cfg ds = returns_cmd fx cfg ds).
+Proof.
+  intros lenient v fx cfg ds. split; [apply transcode_cmd_safe_agrees|].
+  split; [apply weights_csv_cmd_safe_agrees|apply returns_cmd_safe_agrees].
+Qed.
+Print Assumptions C14_repaired_agrees_more.
+
+Theorem C14_repaired_errors_on_witnesses_more :
+  (exists k d, weights_csv_cmd_safe (w_pf w_neg_level_all) (w_journal w_day None) = CErr k d) /\
+  (exists k d, weights_csv_cmd_safe (w_pf []) (w_journal w_day (Some w_inverted)) = CErr k d) /\
+  (exists k d, returns_cmd_safe repaired (w_pf []) (w_journal w_day (Some w_inverted)) = CErr k d) /\
+  (exists k d, transcode_cmd_safe true (Some w_chf) (w_journal w_day (Some w_inverted)) = CErr k d) /\
+  (exists k d, weights_csv_cmd_safe (w_pf []) (w_journal 0 None) = CErr k d) /\
+  (exists k d, returns_cmd_safe repaired (w_pf []) (w_journal 0 None) = CErr k d).
+Proof. exact witness_repaired_more. Qed.
+Print Assumptions C14_repaired_errors_on_witnesses_more.
+
+(* an invalid directive in any reachable file fails these commands as well *)
+Theorem C14_invalid_directive_fails_more :
+  forall fs root p items d,
+  reach fs root p -> lookup fs p = Some (FOk items) -> In (IDir d) items ->
+  (forall o, parse_directive d <> MOk o) ->
+  (forall l v s, run_fs fs root (transcode_cmd_safe l v) <> COk s) /\
+  (forall cfg s, run_fs fs root (weights_csv_cmd_safe cfg) <> COk s) /\
+  (forall fx cfg s, run_fs fs root (returns_cmd_safe fx cfg) <> COk s).
+Proof. exact invalid_directive_fails_more. Qed.
+Print Assumptions C14_invalid_directive_fails_more.
+
+(* a failing command prints nothing, by the result type.  The property asks this of "balance,
+   print, transcode, infer, check --write".  For transcode (and weights) it is what the code does:
+   both render through a bufio.Writer after the journal has been processed.  For returns - which
+   the property does not list - it is a statement about the MODEL's result type only:
+   performance.Perf prints a line per period end with fmt.Printf while the days are being
+   processed, so in the binary a failure on a later day (assertion, missing price) leaves the
+   earlier lines on stdout; the model of returns_cmd describes the output of successful runs, and
+   the check does not require an empty stdout of a failing `portfolio returns`. *)
+Theorem C14_error_empty_stdout_more :
+  forall lenient v fx cfg ds k d,
+    (transcode_cmd lenient v ds = CErr k d -> stdout_of (transcode_cmd lenient v ds) = []) /\
+    (weights_csv_cmd cfg ds = CErr k d -> stdout_of (weights_csv_cmd cfg ds) = []) /\
+    (returns_cmd fx cfg ds = CErr k d -> stdout_of (returns_cmd fx cfg ds) = []) /\
+    (transcode_cmd_safe lenient v ds = CErr k d -> stdout_of (transcode_cmd_safe lenient v ds) = []) /\
+    (weights_csv_cmd_safe cfg ds = CErr k d -> stdout_of (weights_csv_cmd_safe cfg ds) = []) /\
+    (returns_cmd_safe fx cfg ds = CErr k d -> stdout_of (returns_cmd_safe fx cfg ds) = []).
+Proof. exact error_empty_stdout_more. Qed.
+Print Assumptions C14_error_empty_stdout_more.
+
 (* ---------------------------------------------------------------- the hypotheses are satisfiable *)
 
 Example C14_guards_satisfiable :
@@ -236,3 +416,66 @@ Example C14_clean_run_examples :
   clean_run_b true ClPANIC true true = false /\ clean_run_b true ClHANG true false = false /\
   clean_run_b true ClOOM true true = false /\ clean_run_b false ClEXIT true true = false.
 Proof. exact clean_run_examples. Qed.
+
+Example C14_pf_guards_satisfiable :
+  pf_guards (w_pf []) (w_journal w_day None) = true /\
+  (exists out, weights_csv_cmd (w_pf []) (w_journal w_day None) = COk out) /\
+  (exists out, returns_cmd repaired (w_pf []) (w_journal w_day None) = COk out) /\
+  (exists out, transcode_cmd true (Some w_chf) (w_journal w_day None) = COk out).
+Proof. exact witness_pf_ok. Qed.
+
+(* ---------------------------------------------------------------- (6) format and infer *)
+
+(* The syntax-level commands work on bytes: Model/Parser.v parse_text (scanner and parser with
+   fuel S |t| for each of their seven loops), Model/SynPrinter.v format_cmd, Model/BayesScore.v
+   infer_scored.  Their result types have no error-with-output case at all; what C14 asks of them
+   is that the distinguished results CmdPanic (slice bounds in Format), CmdOutOfFuel (a loop of
+   the parser not ending) and InferBad (fuel, or a rendering that fails) are unreachable, for
+   every byte string and every character class - and then the exit class is a function of
+   "do the files parse".  (Imported here, after the ledger-level statements, because both levels
+   define their own [str], [account], ...) *)
+From Knut Require Import Model.Bytes Model.Utf8 Model.Scanner Model.Parser Model.SynPrinter Model.Bayes Model.BayesScore
+     Proofs.InferProofs Proofs.NoPanicSyntax.
+
+Theorem C14_format_total : forall letter digit t,
+  format_cmd letter digit t <> CmdPanic /\ format_cmd letter digit t <> CmdOutOfFuel /\
+  ((exists n, format_cmd letter digit t = Rewritten n) <-> (exists f, parse_text letter digit t = ParseOk f)) /\
+  (format_cmd letter digit t = Untouched <-> (exists e, parse_text letter digit t = ParseErr e)).
+Proof. exact format_cmd_clean. Qed.
+Print Assumptions C14_format_total.
+
+(* infer as it is (the choice is bayes.Model.Infer over any float arithmetic F) ... *)
+Theorem C14_infer_total : forall F flog fadd fgt fields lower ph letter digit training target,
+  infer_scored F flog fadd fgt fields lower ph letter digit training target <> InferBad /\
+  ((exists out, infer_scored F flog fadd fgt fields lower ph letter digit training target = InferOut out) <->
+   (exists ftr ftg, parse_text letter digit training = ParseOk ftr /\ parse_text letter digit target = ParseOk ftg)) /\
+  (infer_scored F flog fadd fgt fields lower ph letter digit training target = InferErr <->
+   ((exists e, parse_text letter digit training = ParseErr e) \/ (exists e, parse_text letter digit target = ParseErr e))).
+Proof. exact infer_scored_clean. Qed.
+Print Assumptions C14_infer_total.
+
+(* ... and with any valid choice function *)
+Theorem C14_infer_with_total : forall ph letter digit choose training target,
+  valid_choose choose ->
+  infer_with ph Fixed letter digit choose training target <> InferBad /\
+  ((exists out, infer_with ph Fixed letter digit choose training target = InferOut out) <->
+   (exists ftr ftg, parse_text letter digit training = ParseOk ftr /\ parse_text letter digit target = ParseOk ftg)) /\
+  (infer_with ph Fixed letter digit choose training target = InferErr <->
+   ((exists e, parse_text letter digit training = ParseErr e) \/ (exists e, parse_text letter digit target = ParseErr e))).
+Proof. exact infer_with_clean. Qed.
+Print Assumptions C14_infer_with_total.
+
+(* every byte string either parses or is rejected with an error: the loading commands get a
+   syntax tree or a diagnostic from every file *)
+Theorem C14_parse_total : forall letter digit t,
+  (exists f, parse_text letter digit t = ParseOk f) \/ (exists e, parse_text letter digit t = ParseErr e).
+Proof. exact parse_text_cases. Qed.
+Print Assumptions C14_parse_total.
+
+(* a failing infer prints nothing (by the result type; infer collects its output and writes it
+   after both files have been processed); format never writes to stdout *)
+Theorem C14_error_empty_stdout_syntax : forall F flog fadd fgt fields lower ph letter digit training target,
+  infer_scored F flog fadd fgt fields lower ph letter digit training target = InferErr ->
+  stdout_of_infer (infer_scored F flog fadd fgt fields lower ph letter digit training target) = [].
+Proof. intros F flog fadd fgt fields lower ph letter digit training target H. rewrite H. reflexivity. Qed.
+Print Assumptions C14_error_empty_stdout_syntax.
